@@ -7,7 +7,28 @@ other messages.  Observables: every view of `con.ports` and `con.original_ports`
 iteration, len, membership, get/has_key, values, items) after the handshake and after each message that asks for it, and the
 statistics events raised on the connection (class, entry list, xids of the assembled messages) per message."""
 import struct, itertools, random, sys
-import common, poxenv, ofgen
+
+# `def`, decorator, class-body and module-level lines of the anchored files execute once, when the module is imported (ofgen
+# imports the pox.openflow package, poxenv.boot() imports of_01): trace those imports so that the anchored-line figure counts
+# them — the per-case tracer of common.py starts later and could never see them.  Only module and class-body frames are
+# recorded; which lines came from the import is reported in the evidence (`import_time_anchored_lines`).
+_IMPORT_HITS = set()
+_WATCHED = ("pox/openflow/of_01.py", "pox/openflow/__init__.py")
+_CLASS_BODIES = ("<module>", "PortCollection", "Connection", "DefaultOpenFlowHandlers", "HandshakeOpenFlowHandlers",
+                 "OpenFlowHandlers", "RawStatsReply", "StatsReply", "SwitchDescReceived", "FlowStatsReceived",
+                 "AggregateFlowStatsReceived", "TableStatsReceived", "PortStatsReceived", "QueueStatsReceived")
+def _imp_local(frame, event, arg):
+    if event == "line": _IMPORT_HITS.add((frame.f_code.co_filename, frame.f_lineno))
+    return _imp_local
+def _imp_global(frame, event, arg):
+    c = frame.f_code
+    return _imp_local if c.co_filename.endswith(_WATCHED) and c.co_name in _CLASS_BODIES else None
+_PRELOADED = any(m in sys.modules for m in ("pox.openflow", "pox.openflow.of_01"))
+sys.settrace(_imp_global)
+try:
+    import common, poxenv, ofgen
+finally:
+    sys.settrace(None)
 from common import Check
 
 STATS_EVENTS = {"SwitchDescReceived": 0, "FlowStatsReceived": 1, "AggregateFlowStatsReceived": 2, "TableStatsReceived": 3,
@@ -69,9 +90,14 @@ class C17(Check):
                 "Pox.C17.readd_deleted", "Pox.C17.renamed_unreachable", "Pox.C17.mask_on_readd_irrelevant", "Pox.C17.legacy_rename_defect",
                 "Pox.C17.legacy_delete_add_defect", "Pox.C17.stats_refine", "Pox.C17.stats_once", "Pox.C17.stats_no_merge",
                 "Pox.C17.stats_never_raises", "Pox.C17.other_messages_frame", "Pox.C17.legacy_interleave_defect",
-                "Pox.C17.legacy_stale_part_defect", "Pox.C17.legacy_unknown_type_raises"]
+                "Pox.C17.legacy_stale_part_defect", "Pox.C17.legacy_unknown_type_raises",
+                "Pox.C17.views_consistent", "Pox.C17.copy_same_view", "Pox.C17.status_unknown_reason", "Pox.C17.features_restarts",
+                "Pox.C17.handshake_defers_in_order", "Pox.C17.stats_two_requests", "Pox.C17.raw_event_exactly_for_stats"]
     anchors = [("pox/openflow/of_01.py", 68, 111), ("pox/openflow/of_01.py", 176, 190), ("pox/openflow/of_01.py", 245, 254),
-               ("pox/openflow/of_01.py", 614, 700), ("pox/openflow/of_01.py", 952, 980)]
+               ("pox/openflow/of_01.py", 337, 344), ("pox/openflow/of_01.py", 369, 372), ("pox/openflow/of_01.py", 390, 395),
+               ("pox/openflow/of_01.py", 397, 404), ("pox/openflow/of_01.py", 597, 711), ("pox/openflow/of_01.py", 756, 756),
+               ("pox/openflow/of_01.py", 772, 772), ("pox/openflow/of_01.py", 785, 787), ("pox/openflow/of_01.py", 964, 984),
+               ("pox/openflow/__init__.py", 127, 165)]
     design_ref = "DESIGN.md §5 C17, §6 D17/D18, Appendix E"
     technique = ("Lean 4 proof: refinement of an abstract port map / per-request reply specification by hand-written executable models of PortCollection and "
                  "_incoming_stats_reply (simulation invariant over all histories) + differential correspondence of the compiled model against the real "
@@ -95,13 +121,33 @@ class C17(Check):
     rule = ("case = one connection history on bytes: features reply (0-4 ports), optional early port statuses, then up to 14 messages among port status (3 reasons x 4 numbers x 3 names x 2 addresses x 2 configs), "
             "second features reply, statistics parts (6 types, bodies 0..12 entries cut into 1..6 parts, up to 3 requests interleaved), 9 other message kinds; corpus = D17/D18 witnesses, all port-status "
             "sequences to length 3 (quick) / 4 (thorough) over a 2x2x2 scope, all partitions of short bodies; non-trivial = a port message changed a view or a reply had >=2 parts or requests overlapped")
-    coverage_cases = 700
+    coverage_cases = 10 ** 6          # every case runs under the line tracer
+    _import_counted = ()
+
+    def extra_evidence(self):
+        return {"import_time_anchored_lines": ["%s:%d" % (p.split("/pox/", 1)[-1], l) for p, l in self._import_counted],
+                "import_time_note": "def/decorator/class-body/module-level lines of the anchored ranges, observed executing while the module was imported in this process"}
     search_budget = {"quick": 1500, "thorough": 20000}
 
     # ------------------------------------------------------------------ setup
     def setup(self):
-        self.core = poxenv.boot()
-        import pox.openflow.of_01 as of_01, pox.openflow.libopenflow_01 as of
+        sys.settrace(_imp_global)
+        try:
+            self.core = poxenv.boot()
+            import pox.openflow.of_01 as of_01, pox.openflow.libopenflow_01 as of
+        finally:
+            sys.settrace(None)
+        self._import_hits = set() if _PRELOADED else set(_IMPORT_HITS)
+        base = common.AnchorCoverage
+        if not getattr(base, "_c17_import_aware", False):
+            chk = self
+            class ImportAwareCoverage(base):
+                _c17_import_aware = True
+                def __init__(cov, anchors):
+                    base.__init__(cov, anchors)
+                    chk._import_counted = sorted(chk._import_hits & cov.executable)
+                    cov.hit |= set(chk._import_counted)
+            common.AnchorCoverage = ImportAwareCoverage
         from pox.lib.addresses import EthAddr
         self.of_01, self.of, self.EthAddr = of_01, of, EthAddr
         self._cur = None
@@ -110,6 +156,7 @@ class C17(Check):
         for name in STATS_EVENTS:
             nexus.addListenerByName(name, self._on_nexus)
         self._entry_cache = {}
+        self._dflt = of.ofp_phy_port()                     # canonical [0, 0, 0, 0]
 
     def _on_nexus(self, ev):
         if ev.connection is self._cur:
@@ -208,6 +255,15 @@ class C17(Check):
         cases.append(ports_case(feat, [{"t": "status", "reason": 0, "port": pd(3, "a", HWS[0])}, {"t": "status", "reason": 1, "port": feat[0]},
                                        {"t": "features", "ports": [feat[1]]}, {"t": "status", "reason": 3, "port": pd(3, "b", HWS[1], 1)}]))
         cases.append(ports_case([], [{"t": "status", "reason": 0, "port": feat[0]}, {"t": "status", "reason": 1, "port": feat[0]}]))
+        c = ports_case(feat, [{"t": "status", "reason": 2, "port": ren}], early=[{"t": "status", "reason": 0, "port": pd(3, "c", HWS[0])}])
+        c["pre"] = [{"t": "status", "reason": 1, "port": feat[0]}, {"t": "status", "reason": 0, "port": pd(7, "ghost", HWS[1])}]
+        cases.append(c)                                             # statuses before the features reply are dropped
+        for r in (3, 4, 255):                                       # reasons the standard does not define
+            cases.append(ports_case(feat, [{"t": "status", "reason": r, "port": ren}, {"t": "status", "reason": r, "port": pd(3, "b", HWS[1])},
+                                           {"t": "status", "reason": 1, "port": feat[1]}]))
+        cases.append(ports_case(feat, [{"t": "status", "reason": 1, "port": feat[0]}, {"t": "features", "ports": feat},
+                                       {"t": "status", "reason": 2, "port": ren}, {"t": "features", "ports": []},
+                                       {"t": "status", "reason": 0, "port": feat[1]}]))
         # --- D18 witnesses (legacy_interleave_defect, legacy_stale_part_defect, legacy_unknown_type_raises)
         a1 = {"t": "stats", "xid": 7, "type": 1, "more": True, "body": E[1][:1]}
         a2 = {"t": "stats", "xid": 7, "type": 1, "more": False, "body": E[1][1:3]}
@@ -305,6 +361,7 @@ class C17(Check):
     def _case(self, rng, kind):
         feat = self._rand_features(rng)
         early = [dict(self._rand_status(rng), snap=False) for _ in range(rng.choice([0, 0, 0, 1, 2]))]
+        pre = [dict(self._rand_status(rng), snap=False) for _ in range(rng.choice([0, 0, 0, 0, 1, 2]))]
         if kind == "ports":
             msgs = self._port_walk(rng, rng.choice([1, 2, 3, 5, 8, 12, rng.randint(1, 12)]))
             if rng.random() < 0.3:
@@ -325,7 +382,7 @@ class C17(Check):
             elif w == "vendor": streams.append([{"t": "stats", "xid": 78, "type": 0xffff, "more": False, "body": ["00002320" + "00" * 4]}])
             else: streams.append([{"t": "stats", "xid": 79, "type": 9, "more": True, "body": ["00" * 8]}])
             msgs = self.interleave(rng, streams)
-        return {"features": feat, "early": early, "msgs": msgs, "q": Q_FULL}
+        return {"features": feat, "pre": pre, "early": early, "msgs": msgs, "q": Q_FULL}
 
     def generate(self, rng, tier):
         n = 2400 if tier == "quick" else 30000
@@ -403,13 +460,29 @@ class C17(Check):
     def _snap(self, con, q):
         o = self._snap_coll(con.ports, q, "")
         o.update(self._snap_coll(con.original_ports, q, "o"))
+        coll = con.ports
+        canon = lambda g: self._canon_port(g) if g is not None else "IndexError"
+        o["get"] = [canon(coll.get(k)) for k in q["nos"]]
+        o["get_dflt"] = [canon(coll.get(k, self._dflt)) for k in q["nos"]]
+        o["has_key"] = [coll.has_key(k) for k in q["nos"]]
+        try:
+            c = coll.copy()
+            if c is None: o["copy"] = None                 # the method ends without `return r` (candidate C17-1)
+            else:
+                o["copy"] = {"keys": sorted(c.keys()), "len": len(c), "no": [self._look(c, k) for k in q["nos"]],
+                             "masks": sorted(c._masks), "values": sorted(self._canon_port(p) for p in c.values())}
+                if c._chain is not None: o["copy"]["chain"] = True
+        except Exception as e:
+            o["copy"] = type(e).__name__
         return o
 
     def _canon_event(self, ev):
         stats = ev.stats if isinstance(ev.stats, list) else [ev.stats]
         parts = ev.ofp if isinstance(ev.ofp, list) else [ev.ofp]
-        return {"cls": type(ev).__name__, "stats": [(s.pack() if hasattr(s, "pack") else bytes(s)).hex() for s in stats],
-                "xids": [p.xid for p in parts], "listlike": isinstance(ev.stats, list)}
+        o = {"cls": type(ev).__name__, "stats": [(s.pack() if hasattr(s, "pack") else bytes(s)).hex() for s in stats],
+             "xids": [p.xid for p in parts], "listlike": isinstance(ev.stats, list)}
+        if ev.dpid != ev.connection.dpid or ev.connection is not self._cur: o["dpid"] = ev.dpid
+        return o
 
     def _feed(self, con, sock, data):
         while data:
@@ -428,12 +501,17 @@ class C17(Check):
         con = of_01.Connection(sock)
         self._cur = con
         events, excs = [], []
+        raws = []
         for name in STATS_EVENTS:
             con.addListenerByName(name, lambda ev: events.append(self._canon_event(ev)))
+        con.addListenerByName("RawStatsReply", lambda ev: raws.append(
+            [ev.ofp.xid, ev.ofp.type, not ev.ofp.is_last_reply] + ([] if ev.dpid == con.dpid and ev.connection is con else ["dpid"])))
         real_exc = of_01.log.exception
         of_01.log.exception = lambda *a, **k: excs.append(sys.exc_info()[0].__name__ if sys.exc_info()[0] else "?")
         try:
             ok = self._feed(con, sock, of.ofp_hello(xid=1).pack())
+            for m in case.get("pre", []):                                  # before the features reply: dropped by the handshake handler
+                ok = ok and self._feed(con, sock, self._msg_bytes(m))
             ok = ok and self._feed(con, sock, self._msg_bytes({"t": "features", "ports": case["features"]}))
             for m in case.get("early", []):
                 ok = ok and self._feed(con, sock, self._msg_bytes(m))
@@ -448,9 +526,9 @@ class C17(Check):
                 return {"handshake": "connection did not come up"}
             snaps, outs = [self._snap(con, case["q"])], []
             for m in case["msgs"]:
-                del events[:], excs[:], self._nexus_ev[:]
+                del events[:], excs[:], self._nexus_ev[:], raws[:]
                 alive = self._feed(con, sock, self._msg_bytes(m))
-                o = {"events": list(events)}
+                o = {"events": list(events), "raw": list(raws)}
                 if excs: o["exc"] = list(excs)
                 if self._nexus_ev != events: o["nexus"] = list(self._nexus_ev)
                 if not alive: o["closed"] = getattr(self, "_escaped", None) or True
@@ -481,10 +559,12 @@ class C17(Check):
             f = lambda l: [(x[0] if isinstance(x, list) else None) for x in l]
             return {"name": f(sn["name"]), "hw": f(sn["hw"]), "oname": f(sn["oname"]), "ohw": f(sn["ohw"])}
         snaps = iter(obs["snaps"])
-        msgs = [{"t": "features", "ports": [pd_canon(p) for p in case["features"]]}]
+        hs = [{"t": "status", "reason": m["reason"], "port": pd_canon(m["port"])} for m in case.get("pre", [])]
+        hs.append({"t": "features", "ports": [pd_canon(p) for p in case["features"]]})
         for m in case.get("early", []):
-            msgs.append({"t": "status", "reason": m["reason"], "port": pd_canon(m["port"])})
-        msgs[-1]["seen"] = seen(next(snaps))
+            hs.append({"t": "status", "reason": m["reason"], "port": pd_canon(m["port"])})
+        seen0 = seen(next(snaps))
+        msgs = []
         for m in case["msgs"]:
             if m["t"] == "status": mm = {"t": "status", "reason": m["reason"], "port": pd_canon(m["port"])}
             elif m["t"] == "features": mm = {"t": "features", "ports": [pd_canon(p) for p in m["ports"]]}
@@ -492,7 +572,8 @@ class C17(Check):
             else: mm = {"t": "other"}
             if m.get("snap"): mm["seen"] = seen(next(snaps))
             msgs.append(mm)
-        return {"q": mq, "msgs": msgs}
+        # copy() is compared when the implementation returns a collection (the unrepaired method returns None: candidate C17-1)
+        return {"q": mq, "hs": hs, "seen0": seen0, "msgs": msgs, "copy": all(sn.get("copy") is not None for sn in obs["snaps"])}
 
     SNAP_KEYS = ["keys", "len", "no", "in_no", "name", "in_name", "hw", "in_hw", "values", "items"]
 
@@ -506,13 +587,19 @@ class C17(Check):
             if len(o["events"]) > 1: outs.append({"many": len(o["events"])}); continue
             e = o["events"][0]
             outs.append({"type": STATS_EVENTS[e["cls"]], "stats": [ids.get(h, -1) for h in e["stats"]], "xids": e["xids"]})
-        snaps = [{p + k: s[p + k] for p in ("", "o") for k in self.SNAP_KEYS} for s in obs["snaps"]]
-        return {"outs": outs, "snaps": snaps}
+        with_copy = all(sn.get("copy") is not None for sn in obs["snaps"])
+        snaps = []
+        for sn in obs["snaps"]:
+            d = {p + k: sn[p + k] for p in ("", "o") for k in self.SNAP_KEYS}
+            for k in ("get", "get_dflt", "has_key"): d[k] = sn[k]
+            if with_copy: d["copy"] = sn["copy"]
+            snaps.append(d)
+        raws = [(o["raw"][0] if len(o["raw"]) == 1 else (None if not o["raw"] else {"many": o["raw"]})) for o in obs["outs"]]
+        return {"outs": outs, "raws": raws, "snaps": snaps}
 
     def model_obs(self, case, resp):
         if "error" in resp: return resp
-        skip = 1 + len(case.get("early", []))
-        return {"outs": resp["outs"][skip:], "snaps": resp["snaps"]}
+        return {"outs": resp["outs"], "raws": resp["raws"], "snaps": resp["snaps"]}
 
     # ------------------------------------------------------------------ the property, on the implementation's observables
     def _check_coll(self, s, pre, cur, q, who):
@@ -563,13 +650,28 @@ class C17(Check):
         snaps = iter(obs["snaps"])
         def check(s):
             if not (defined and ok_feat): return None
-            return self._check_coll(s, "", cur, q, "ports") or self._check_coll(s, "o", orig, q, "original_ports")
+            f = self._check_coll(s, "", cur, q, "ports") or self._check_coll(s, "o", orig, q, "original_ports")
+            if f: return f
+            for k, g, gd, hk in zip(q["nos"], s["get"], s["get_dflt"], s["has_key"]):
+                want = cur.get(k, "IndexError")
+                if g != want or gd != cur.get(k, [0, 0, 0, 0]): return "ports:get:wrong: ports.get(%d) = %s / %s, expected %s" % (k, g, gd, want)
+                if hk != (k in cur): return "ports:has_key:wrong: ports.has_key(%d) = %s" % (k, hk)
+            c = s.get("copy")
+            if c is not None:                                   # judged once the method returns its result (C17-1)
+                if not isinstance(c, dict): return "ports:copy:%s: ports.copy() raised" % c
+                if c["keys"] != sorted(cur) or c["len"] != len(cur) or c["values"] != sorted(cur.values()) or c["masks"] or c.get("chain") \
+                   or c["no"] != [cur.get(k, "IndexError") for k in q["nos"]]:
+                    return "ports:copy:wrong: ports.copy() = %s, expected the current map %s" % (c, sorted(cur.values()))
+            return None
         f = check(next(snaps))
         if f: return f + " (after handshake)"
         # ---- statistics: per request, the open parts; the event due at each message
         open_parts, tainted, crossed = {}, set(), set()
         for i, (m, o) in enumerate(zip(case["msgs"], obs["outs"])):
             evs = o["events"]
+            want_raw = [[m["xid"], m["type"], m["more"]]] if m["t"] == "stats" else []
+            if o["raw"] != want_raw: return "stats:raw:wrong: message %d (%s) raised RawStatsReply %s, expected %s" % (i, m["t"], o["raw"], want_raw)
+            if any("dpid" in e for e in evs): return "stats:event:wrong-dpid: message %d" % i
             if "nexus" in o: return "stats:nexus-differs: message %d: nexus saw %d events, connection %d" % (i, len(o["nexus"]), len(evs))
             if o.get("closed"): return "conn:closed: message %d closed the connection" % i
             if m["t"] == "stats":
@@ -623,6 +725,8 @@ class C17(Check):
             c = dict(case); c["msgs"] = case["msgs"][:i] + case["msgs"][i + 1:]; yield c
         for i in range(len(case.get("early", []))):
             c = dict(case); c["early"] = case["early"][:i] + case["early"][i + 1:]; yield c
+        if case.get("pre"):
+            c = dict(case); c["pre"] = []; yield c
         for i in range(len(case["features"])):
             c = dict(case); c["features"] = case["features"][:i] + case["features"][i + 1:]; yield c
         for i, m in enumerate(case["msgs"]):
